@@ -81,10 +81,15 @@ class Line(Segment):
         """Returns the t (0->1) value of the given point, assuming it lies on the line, or -1 if it does not."""
         # Just find one and hope the other fits
         # point = self.start * (1-t) + self.end * t
-        if not isclose(self.end.x, self.start.x):
-            t = (point.x - self.start.x) / (self.end.x - self.start.x)
-        elif not isclose(self.end.y, self.start.y):
-            t = (point.y - self.start.y) / (self.end.y - self.start.y)
+        dx = self.end.x - self.start.x
+        dy = self.end.y - self.start.y
+        xok = not isclose(self.end.x, self.start.x)
+        yok = not isclose(self.end.y, self.start.y)
+        # Solve in the co-ordinate with the larger extent
+        if xok and (abs(dx) >= abs(dy) or not yok):
+            t = (point.x - self.start.x) / dx
+        elif yok:
+            t = (point.y - self.start.y) / dy
         else:
             print("! Line %s is actually a point..." % self)
             return -1
